@@ -174,7 +174,8 @@ class CSSVariablesDeclaration(css_parser.util._NewBase):
                     if nname in newvars:
                         # replace var with same name
                         for i, it in enumerate(newseq):
-                            if normalize(it.value[0]) == nname:
+                            # comments are kept in the sequence as well
+                            if 'var' == it.type and normalize(it.value[0]) == nname:
                                 newseq.replace(i,
                                                (nameitem.value, item.value),
                                                'var',
